@@ -72,9 +72,12 @@ func (e *ExecutorEngine) StartOperation(ctx context.Context, id string, payload 
 	return nil
 }
 
-// StopSubscription will stop an active subscription.
+// StopSubscription will stop an active subscription. An id that is not (or no longer) active is
+// ignored: there is nothing to complete.
 func (e *ExecutorEngine) StopSubscription(id string, eventHandler EventHandler) error {
-	e.subCancellations.Cancel(id)
+	if !e.subCancellations.Cancel(id) {
+		return nil
+	}
 	eventHandler.Emit(EventTypeOnSubscriptionCompleted, id, nil, nil)
 	return nil
 }
